@@ -362,6 +362,12 @@ pub fn coherence(threads: usize, ops: u64, nkeys: u8, seed: u64, cap: Option<u64
 // ---- C07: invalidate_all beside writers and readers (real clock) -------------------------
 
 pub fn invalidation_race(invalidators: usize, writers: usize, readers: usize, rounds: u64, nkeys: u64) -> Outcome {
+    invalidation_race_p("C07", invalidators, writers, readers, rounds, nkeys, false)
+}
+
+/// `iterate`: the readers run full iterations instead of gets (C16: an iteration never yields
+/// an invalidated entry)
+pub fn invalidation_race_p(prop: &'static str, invalidators: usize, writers: usize, readers: usize, rounds: u64, nkeys: u64, iterate: bool) -> Outcome {
     use std::time::Instant;
     let cache: Cache<u64, u64> = Cache::builder().build();
     let clk = Arc::new(AtomicU64::new(1));
@@ -415,7 +421,11 @@ pub fn invalidation_race(invalidators: usize, writers: usize, readers: usize, ro
             while !d.load(Ordering::Acquire) {
                 i += 1;
                 let ls = k.fetch_add(1, Ordering::SeqCst);
-                if let Some(v) = c.get(&(i % nkeys)) {
+                if iterate {
+                    for e in c.iter() {
+                        ev.push((ls, *e.value()));
+                    }
+                } else if let Some(v) = c.get(&(i % nkeys)) {
                     ev.push((ls, v));
                 }
             }
@@ -444,7 +454,7 @@ pub fn invalidation_race(invalidators: usize, writers: usize, readers: usize, ro
     for (i, x) in ias.iter().enumerate() {
         prefix_max.push(if i == 0 { x.0 } else { prefix_max[i - 1].max(x.0) });
     }
-    let params = serde_json::json!({"workload": "invalidation_race", "invalidators": invalidators, "writers": writers, "readers": readers, "rounds": rounds, "keys": nkeys, "get_hits": gets.len(), "inserts": ins.len()});
+    let params = serde_json::json!({"workload": "invalidation_race", "invalidators": invalidators, "writers": writers, "readers": readers, "rounds": rounds, "keys": nkeys, "get_hits": gets.len(), "inserts": ins.len(), "iterate": iterate});
     let mut violation = None;
     let mut decided = 0u64;
     for (ls, v) in &gets {
@@ -455,7 +465,7 @@ pub fn invalidation_race(invalidators: usize, writers: usize, readers: usize, ro
         }
         decided += 1;
         if prefix_max[idx - 1] > *t_ins {
-            violation = Some(viol("C07", format!("a get that began after an invalidate_all had returned showed a value whose insert had returned before that invalidate_all was called (value {v:#x}); the insert preceded the call by {:?}", prefix_max[idx - 1].duration_since(*t_ins)), params.clone()));
+            violation = Some(viol(prop, format!("{} that began after an invalidate_all had returned showed a value whose insert had returned before that invalidate_all was called (value {v:#x}); the insert preceded the call by {:?}", if iterate { "an iteration" } else { "a get" }, prefix_max[idx - 1].duration_since(*t_ins)), params.clone()));
             break;
         }
     }
@@ -875,7 +885,7 @@ pub fn mixed_h(prop: &str, threads: usize, ops: u64, nkeys: u32, cap: Option<u64
 // ---- worker ---------------------------------------------------------------------------
 
 pub const RULE_C04: &str = "real threads inserting distinct fresh unit-weight keys without sync while a monitor thread counts the residents at moments when no insert call is in progress (a gate makes the count atomic); every count must stay <= max_capacity + 384 (the write queue); evaluations = samples taken; non-trivial = samples that observed more than max_capacity resident entries (a real overshoot)";
-pub const RULE_C16: &str = "k writer threads overwrite a fixed key set with increasing per-writer sequence numbers while m threads run full iterations; every pass must yield each key exactly once and never an older value of the same writer than an earlier pass; evaluations = passes; non-trivial = passes during which >= 1 key changed its value";
+pub const RULE_C16: &str = "k writer threads overwrite a fixed key set with increasing per-writer sequence numbers while m threads run full iterations; every pass must yield each key exactly once and never an older value of the same writer than an earlier pass; evaluations = passes; non-trivial = passes during which >= 1 key changed its value; plus: 2-3 threads call invalidate_all in a loop, 1-2 writers overwrite 1-3 keys, 2 threads iterate: an iteration that began after an invalidate_all had returned must not yield a value whose insert had returned before that invalidate_all was called (evaluations = yielded values, non-trivial = those yielded after a completed invalidate_all)";
 pub const RULE_MIXED: &str = "real threads issue seeded insert/get/invalidate/invalidate_all/sync/iterate on a small key set (small capacity, weigher, optional real-time ttl); after all threads stopped and sync() ran the state oracle of the property is evaluated (counters vs. physical snapshot / capacity / drop registry / structural walker); evaluations = operations issued; non-trivial is counted per 64 operations issued concurrently (every block races with the other threads' blocks)";
 pub const RULE_REWEIGH: &str = "real threads: 1-2 writers keep re-inserting their own 1-5 keys with weights from {1,2,3,5,7,12,30} while 1-2 other threads do nothing but call sync(); after all threads stopped and sync() ran: C10 counters equal the physical entries/weights, C04 resident weight <= max_capacity, C03 (capacity 1 000, everything fits) every written key is resident and a refill with exactly as many fresh unit-weight keys as there is room left is fully retained and evicts nothing; evaluations = inserts issued; non-trivial is counted per 64 inserts (each block races with the maintenance threads)";
 pub const RULE_C05: &str = "real clock, time_to_live of a few ms: one writer per key replaces its value just after the previous one has expired while reader threads spin on get; a get that began (wall clock) at or after the instant the returned value's insert had returned + ttl is a violation; evaluations = successful gets; non-trivial = successful gets within 200 us of the value's deadline; plus the same race on the mock clock: the writer steps the clock by exactly the ttl before each replacement (60 000 generations), non-trivial = generations";
@@ -966,6 +976,11 @@ pub fn stress_worker(a: &WorkerArgs) -> WorkerResult {
                 let o = iterate_beside_writers(1, 2, 2, 20_000 * scale, None, false);
                 add(o, &mut res, 3);
             }
+            if res.violation.is_none() {
+                // iterations beside invalidate_all callers and writers
+                let o = invalidation_race_p("C16", 2 + a.idx as usize % 2, 1 + a.idx as usize % 2, 2, 40_000 * scale, 1 + a.idx % 3, true);
+                add(o, &mut res, 17);
+            }
         }
         "C05" => {
             let plans: [(u64, u64, usize); 4] = [(2, 1, 3), (1, 2, 2), (3, 1, 2), (2, 2, 4)];
@@ -1011,7 +1026,7 @@ pub fn replay(found: &Found) -> Option<crate::exec::Violation> {
         let o = match p.get("workload").and_then(|v| v.as_str()) {
             Some("overshoot") => overshoot(g("max_capacity"), g("inserting_threads") as usize, g("inserts_per_thread")),
             Some("iterate_beside_writers") => iterate_beside_writers(g("keys"), g("writers") as usize, g("iterators") as usize, g("rounds_per_writer"), p.get("initial_capacity").and_then(|v| v.as_u64()).map(|n| n as usize), p.get("bounded").and_then(|v| v.as_bool()).unwrap_or(false)),
-            Some("invalidation_race") => invalidation_race(g("invalidators") as usize, g("writers") as usize, g("readers") as usize, g("rounds"), g("keys")),
+            Some("invalidation_race") => invalidation_race_p(if found.property == "C16" { "C16" } else { "C07" }, g("invalidators") as usize, g("writers") as usize, g("readers") as usize, g("rounds"), g("keys"), p.get("iterate").and_then(|v| v.as_bool()).unwrap_or(false)),
             Some("ttl_generations") => ttl_generations(g("readers") as usize, g("generations")),
             Some("ttl_race") => ttl_race(g("ttl_ms"), g("keys"), g("readers") as usize, g("rounds")),
             Some("mixed") => mixed_h(&found.property, g("threads") as usize, g("ops_per_thread"), g("keys") as u32, p.get("max_capacity").and_then(|v| v.as_u64()), p.get("weigher").and_then(|v| v.as_bool()).unwrap_or(false), p.get("ttl_ms").and_then(|v| v.as_u64()), g("seed"), p.get("one_shard").and_then(|v| v.as_bool()).unwrap_or(false)),
